@@ -75,15 +75,22 @@ func Run(args map[string]string) {
 	enumHist(faultlen, func(h []int) {
 		for i := range h {
 			for k := 0; k <= 9; k++ {
-				c := Case{Kind: "seq"}
-				for j, p := range h {
-					d := Delivery{Key: 0, Phase: p, Fault: -1}
-					if j == i {
-						d.Fault = k
-					}
-					c.Hist = append(c.Hist, d)
+				// every error kind for the short histories (the kind only matters at a business statement)
+				kinds := []int{(i + k) % 4}
+				if len(h) <= 2 {
+					kinds = []int{0, 1, 2, 3}
 				}
-				add(c, "seq.fault-each-op")
+				for _, fe := range kinds {
+					c := Case{Kind: "seq"}
+					for j, p := range h {
+						d := Delivery{Key: 0, Phase: p, Fault: -1}
+						if j == i {
+							d.Fault, d.FErr = k, fe
+						}
+						c.Hist = append(c.Hist, d)
+					}
+					add(c, "seq.fault-each-op")
+				}
 			}
 		}
 	})
@@ -102,7 +109,7 @@ func Run(args map[string]string) {
 					for j, p := range h {
 						d := Delivery{Key: 0, Phase: p, Fault: -1, Drv: true}
 						if j == i {
-							d.Fault = k
+							d.Fault, d.FErr = k, (i+k)%4
 						}
 						cc.Hist = append(cc.Hist, d)
 					}
@@ -121,7 +128,7 @@ func Run(args map[string]string) {
 		for j := 0; j < l; j++ {
 			d := Delivery{Key: r.Intn(nkeys), Phase: 1 + r.Intn(3), Fault: -1}
 			if r.Chance(1, 4) {
-				d.Fault = r.Intn(10)
+				d.Fault, d.FErr = r.Intn(10), r.Intn(4)
 			}
 			if mixed {
 				d.Drv = r.Chance(1, 3)
